@@ -105,7 +105,32 @@ pub fn form<E>(spec: &ClusterSpec, mut on_step: impl FnMut(&Sim, &StepInfo) -> R
     }
 }
 
-pub fn panic_or_err(info: &StepInfo, prop: &str, allow_err: bool) -> Result<(), Fail> {
+/// Upper bound on simulator events (deliveries + timers) per member and probe period. A correct cluster
+/// stays two orders of magnitude below it; exceeding it means datagrams keep answering datagrams
+/// (a reply storm), which no simulated property survives and which would otherwise never end.
+pub const STORM_EVENTS_PER_MEMBER_PERIOD: u64 = 5000;
+
+pub fn panic_or_err(sim: &Sim, info: &StepInfo, prop: &str, allow_err: bool) -> Result<(), Fail> {
+    if sim.steps & 0x3ff == 0 && !sim.nodes.is_empty() {
+        let period = sim.nodes[0].inst.cfg.probe_period_ms as u64 * MS;
+        let budget = STORM_EVENTS_PER_MEMBER_PERIOD * sim.nodes.len() as u64 * (sim.now / period.max(1) + 10);
+        if sim.steps > budget {
+            return Err(Fail::new(
+                format!("{prop}:message-storm"),
+                format!(
+                    "{} simulator events in {} probe periods for {} members (more than {} per member and period): datagrams keep triggering datagrams; last event: node{} {} (delivered {:?})\n{}",
+                    sim.steps,
+                    sim.now / period.max(1),
+                    sim.nodes.len(),
+                    STORM_EVENTS_PER_MEMBER_PERIOD,
+                    info.node,
+                    info.call_kind,
+                    info.delivered_kind,
+                    sim.describe()
+                ),
+            ));
+        }
+    }
     if let Some(p) = &info.panic {
         return Err(Fail::new("panic", format!("Foca panicked at t={}us on node{} during {}: {}", info.t, info.node, info.call_kind, p)));
     }
